@@ -680,7 +680,8 @@ async fn shrink(batches: &[RecordBatch], ver: Ver, rng: &mut Rng) -> (Value, Opt
     // narrow class of the minimal failing input: the data feature it exhibits, else its type
     let feats = data_features(&cur);
     let class = if !feats.is_empty() {
-        feats.join("+")
+        // most specific feature first (see data_features)
+        feats[0].to_string()
     } else {
         cur[0]
             .schema()
@@ -809,21 +810,79 @@ fn data_features(batches: &[RecordBatch]) -> Vec<&'static str> {
         }
     }
     let mut f = F::default();
+    /// some list-typed field path (every leaf column is its own page) has rows but no visible
+    /// leaf item
+    fn zero_item_path(dt: &DataType, cells: &[Cell]) -> bool {
+        match dt {
+            DataType::List(_) | DataType::LargeList(_) => {
+                let total: usize = cells.iter().map(|c| visible_leaves(dt, c).unwrap_or(0)).sum();
+                !cells.is_empty() && total == 0
+            }
+            DataType::Struct(fs) => fs.iter().enumerate().any(|(i, fld)| {
+                let child: Vec<Cell> = cells
+                    .iter()
+                    .map(|c| match c {
+                        Cell::Struct(v) => v.get(i).map(|x| x.1.clone()).unwrap_or(Cell::Null),
+                        _ => Cell::Null,
+                    })
+                    .collect();
+                zero_item_path(fld.data_type(), &child)
+            }),
+            _ => false,
+        }
+    }
+    /// some FixedSizeList path whose visible items are all NULL (and there is at least one)
+    fn fsl_all_null_path(dt: &DataType, cells: &[Cell]) -> bool {
+        match dt {
+            DataType::FixedSizeList(f, _) => {
+                let items: Vec<Cell> = cells
+                    .iter()
+                    .flat_map(|c| match c {
+                        Cell::List(v) => v.clone(),
+                        _ => vec![],
+                    })
+                    .collect();
+                if matches!(f.data_type(), DataType::FixedSizeList(_, _)) {
+                    return fsl_all_null_path(f.data_type(), &items);
+                }
+                !items.is_empty() && items.iter().all(|x| x.is_null())
+            }
+            DataType::List(f) | DataType::LargeList(f) => {
+                let items: Vec<Cell> = cells
+                    .iter()
+                    .flat_map(|c| match c {
+                        Cell::List(v) => v.clone(),
+                        _ => vec![],
+                    })
+                    .collect();
+                fsl_all_null_path(f.data_type(), &items)
+            }
+            DataType::Struct(fs) => fs.iter().enumerate().any(|(i, fld)| {
+                let child: Vec<Cell> = cells
+                    .iter()
+                    .map(|c| match c {
+                        Cell::Struct(v) => v.get(i).map(|x| x.1.clone()).unwrap_or(Cell::Null),
+                        _ => Cell::Null,
+                    })
+                    .collect();
+                fsl_all_null_path(fld.data_type(), &child)
+            }),
+            _ => false,
+        }
+    }
     let mut zero_item_list_column = false;
+    let mut fsl_visible_all_null = false;
     if let Some(b0) = batches.first() {
         for (j, fld) in b0.schema().fields().iter().enumerate() {
-            let mut total: Option<usize> = None;
-            let mut rows = 0;
-            for b in batches {
-                for i in 0..b.num_rows() {
-                    rows += 1;
-                    if let Some(n) = visible_leaves(fld.data_type(), &vmon::table::cell_at(b.column(j).as_ref(), i)) {
-                        total = Some(total.unwrap_or(0) + n);
-                    }
-                }
-            }
-            if rows > 0 && total == Some(0) {
+            let cells: Vec<Cell> = batches
+                .iter()
+                .flat_map(|b| (0..b.num_rows()).map(move |i| vmon::table::cell_at(b.column(j).as_ref(), i)))
+                .collect();
+            if zero_item_path(fld.data_type(), &cells) {
                 zero_item_list_column = true;
+            }
+            if fsl_all_null_path(fld.data_type(), &cells) {
+                fsl_visible_all_null = true;
             }
         }
     }
@@ -837,11 +896,11 @@ fn data_features(batches: &[RecordBatch]) -> Vec<&'static str> {
         return vec!["list-column-without-visible-leaf-items"];
     }
     let mut out = vec![];
+    if f.fsl_all_items_null || fsl_visible_all_null {
+        out.push("fsl-batch-with-all-items-null");
+    }
     if f.list_first_item_null {
         out.push("list-starting-with-null-item");
-    }
-    if f.fsl_all_items_null {
-        out.push("fsl-batch-with-all-items-null");
     }
     if f.hidden_null_items {
         out.push("null-items-hidden-behind-null-list");
